@@ -47,7 +47,10 @@ pub fn gen_case(prop: &PropSpec, rng: &mut Rng, thorough: bool) -> Case {
     }
     // ... and in one case out of twenty a handler builds, runs and drops a second simulation
     // (see `Op::Nested`): the outer simulation must not notice.
-    if case.comp.is_none() && !case.nodes.is_empty() && rng.pct(5) {
+    // (Not in benches with a late sub-model mailbox: the trace identifies mailboxes by creation
+    // order, and if that late mailbox is never created - its parent is not built - the nested
+    // simulation's first mailbox would take its place in the numbering.)
+    if case.comp.is_none() && !case.nodes.is_empty() && !case.nodes.iter().any(|n| n.late_mailbox) && rng.pct(5) {
         let i = rng.usize(case.nodes.len());
         if !case.nodes[i].sync_inputs && !case.nodes[i].on.is_empty() {
             let k = rng.usize(case.nodes[i].on.len());
